@@ -432,7 +432,8 @@ def _instantiate(h: ast.FunctionDef, call: ast.Call, host: ast.FunctionDef):
     return pre + hb
 
 
-def _inline_helpers(prog: Program, cls: ClassInfo, fn: ast.FunctionDef, exclude: Set[str], depth: int = 0, public: bool = False) -> None:
+def _inline_helpers(prog: Program, cls: ClassInfo, fn: ast.FunctionDef, exclude: Set[str], depth: int = 0, public: bool = False,
+                    module_functions: bool = False) -> None:
     if depth > 3:
         return
     methods = prog.all_methods(cls)
@@ -440,6 +441,16 @@ def _inline_helpers(prog: Program, cls: ClassInfo, fn: ast.FunctionDef, exclude:
     class_names = {c.name for c in prog.mro(cls)} | {"self", "cls"}
 
     def helper_of(call: ast.AST):
+        if module_functions and isinstance(call, ast.Call) and isinstance(call.func, ast.Name) and call.func.id != fn.name:
+            # a small function of the package called by name (defined in this module or imported): read where it is used
+            r = prog.resolve_name(cls.module, call.func.id)
+            if isinstance(r, tuple) and len(r) == 3 and r[0] == "func" and isinstance(r[2], ast.FunctionDef) \
+                    and len(body_without_docstring(r[2])) <= 6 and not r[2].decorator_list:
+                h = _decision_tree_as_value(r[2])
+                kind = _helper_kind(h)
+                if kind == "value":
+                    return h, kind
+            return None
         if isinstance(call, ast.Call) and isinstance(call.func, ast.Attribute) and isinstance(call.func.value, ast.Name) \
                 and call.func.value.id in class_names and (call.func.attr.startswith("_") or public) and not call.func.attr.startswith("__") \
                 and call.func.attr in methods and call.func.attr not in exclude and call.func.attr != fn.name:
@@ -596,7 +607,7 @@ def _inline_helpers(prog: Program, cls: ClassInfo, fn: ast.FunctionDef, exclude:
     fn.body = do_block(fn.body, True)
     if changed:
         ast.fix_missing_locations(fn)
-        _inline_helpers(prog, cls, fn, exclude, depth + 1, public)
+        _inline_helpers(prog, cls, fn, exclude, depth + 1, public, module_functions)
 
 
 def _return_pairs(fn: ast.AST) -> Dict[str, int]:
@@ -1043,6 +1054,31 @@ def _small_loops(stmts: List[ast.stmt], fn: ast.AST) -> List[ast.stmt]:
     return out
 
 
+def _for_else_any(stmts: List[ast.stmt]) -> List[ast.stmt]:
+    """
+    `for x in IT: if c(x): break` + `else: B` followed by REST   is   `if any(c(x) for x in IT): REST else: B; REST'`  where B ends by
+    leaving (return / raise): the search loop whose only effect is to find out whether some element satisfies c.
+    """
+    out: List[ast.stmt] = []
+    for i, s in enumerate(stmts):
+        for fld in ("body", "orelse", "finalbody"):
+            b = getattr(s, fld, None)
+            if isinstance(b, list) and b and isinstance(b[0], ast.stmt) and not isinstance(s, (ast.FunctionDef, ast.ClassDef)):
+                setattr(s, fld, _for_else_any(b))
+        if isinstance(s, ast.For) and s.orelse and len(s.body) == 1 and isinstance(s.body[0], ast.If) and not s.body[0].orelse \
+                and len(s.body[0].body) == 1 and isinstance(s.body[0].body[0], ast.Break) and _terminates(s.orelse) \
+                and isinstance(s.target, ast.Name):
+            gen = ast.GeneratorExp(elt=s.body[0].test, generators=[ast.comprehension(target=s.target, iter=s.iter, ifs=[], is_async=0)])
+            test = ast.Call(func=ast.Name(id="any", ctx=ast.Load()), args=[gen], keywords=[])
+            rest = _for_else_any(list(stmts[i + 1:]))
+            new_if = ast.copy_location(ast.If(test=test, body=rest or [ast.Pass()], orelse=s.orelse), s)
+            ast.fix_missing_locations(new_if)
+            out.append(new_if)
+            return out
+        out.append(s)
+    return out
+
+
 def _hoist_walrus(stmts: List[ast.stmt]) -> List[ast.stmt]:
     """
     `(name := value)` inside a simple statement or an `if` / `while`-less test is an assignment followed by a use of the name:
@@ -1265,6 +1301,48 @@ class _ExprNorm(ast.NodeTransformer):
                 return node
         return Sub().visit(copy.deepcopy(body))
 
+    def _flatten(self, node):
+        """(e(l) for l in (g for v in IT))  ->  (e(g) for v in IT)   for a simple g"""
+        g0 = node.generators[0]
+        if isinstance(g0.iter, ast.GeneratorExp) and len(g0.iter.generators) == 1 and isinstance(g0.target, ast.Name) \
+                and self._simple(g0.iter.elt):
+            inner_ = g0.iter
+            sub = _Subst({g0.target.id: inner_.elt})
+            new_first = ast.comprehension(target=inner_.generators[0].target, iter=inner_.generators[0].iter,
+                                          ifs=list(inner_.generators[0].ifs) + [sub.visit(copy.deepcopy(c)) for c in g0.ifs], is_async=0)
+            rest = []
+            for g in node.generators[1:]:
+                rest.append(ast.comprehension(target=g.target, iter=sub.visit(copy.deepcopy(g.iter)), ifs=[sub.visit(copy.deepcopy(c)) for c in g.ifs], is_async=0))
+            node.generators = [new_first] + rest
+            for fld in ("elt", "key", "value"):
+                if hasattr(node, fld):
+                    setattr(node, fld, sub.visit(copy.deepcopy(getattr(node, fld))))
+            ast.fix_missing_locations(node)
+        return node
+
+    def visit_GeneratorExp(self, node: ast.GeneratorExp):
+        self.generic_visit(node)
+        return self._flatten(node)
+
+    def visit_ListComp(self, node: ast.ListComp):
+        self.generic_visit(node)
+        return self._flatten(node)
+
+    def visit_DictComp(self, node: ast.DictComp):
+        self.generic_visit(node)
+        # {k: f(k) for k in ("a", "b")}  ->  {"a": f("a"), "b": f("b")}
+        if len(node.generators) == 1 and not node.generators[0].ifs and isinstance(node.generators[0].target, ast.Name) \
+                and isinstance(node.generators[0].iter, (ast.Tuple, ast.List)) and 1 <= len(node.generators[0].iter.elts) <= 6 \
+                and all(isinstance(x, ast.Constant) for x in node.generators[0].iter.elts):
+            v = node.generators[0].target.id
+            keys, vals = [], []
+            for c in node.generators[0].iter.elts:
+                keys.append(_Subst({v: c}).visit(copy.deepcopy(node.key)))
+                vals.append(_Subst({v: c}).visit(copy.deepcopy(node.value)))
+            if all(isinstance(k, ast.Constant) for k in keys):
+                return ast.fix_missing_locations(ast.copy_location(ast.Dict(keys=keys, values=vals), node))
+        return node
+
     def visit_Call(self, node: ast.Call):
         self.generic_visit(node)
         if node.keywords or any(isinstance(a, ast.Starred) for a in node.args):
@@ -1328,6 +1406,24 @@ class _ExprNorm(ast.NodeTransformer):
                                               keywords=[copy.deepcopy(k_) for k_ in inner_.keywords] + list(node.keywords)), node)
         if isinstance(node.func, ast.Attribute) and node.func.attr == "__contains__" and len(node.args) == 1:
             return ast.copy_location(ast.Compare(left=node.args[0], ops=[ast.In()], comparators=[node.func.value]), node)
+        # islice(accumulate(X, initial=0), 1, None)  is  accumulate(X)
+        if short == "islice" and len(node.args) == 3 and isinstance(node.args[1], ast.Constant) and node.args[1].value == 1 \
+                and isinstance(node.args[2], ast.Constant) and node.args[2].value is None and isinstance(node.args[0], ast.Call) \
+                and ast.unparse(node.args[0].func).split(".")[-1] == "accumulate" and len(node.args[0].args) == 1 \
+                and [k.arg for k in node.args[0].keywords] == ["initial"] and isinstance(node.args[0].keywords[0].value, ast.Constant) \
+                and node.args[0].keywords[0].value.value == 0:
+            return ast.copy_location(ast.Call(func=node.args[0].func, args=node.args[0].args, keywords=[]), node)
+        # reduce(add, X, 0.0) / reduce(add, X)  is the sum of X (the order of the float additions is not part of the normal form)
+        if short == "reduce" and 2 <= len(node.args) <= 3 and ast.unparse(node.args[0]) in ("add", "operator.add"):
+            total = ast.copy_location(ast.Call(func=ast.Name(id="sum", ctx=ast.Load()), args=[node.args[1]], keywords=[]), node)
+            if len(node.args) == 3 and not (isinstance(node.args[2], ast.Constant) and node.args[2].value == 0):
+                return ast.copy_location(ast.BinOp(left=node.args[2], op=ast.Add(), right=total), node)
+            return total
+        # repeat(x, n)  ->  (x for _ in range(n))
+        if short == "repeat" and fname in ("repeat", "itertools.repeat") and len(node.args) == 2 and self._simple(node.args[0]):
+            b = fresh("repeat")
+            rng = ast.Call(func=ast.Name(id="range", ctx=ast.Load()), args=[node.args[1]], keywords=[])
+            return gen(node.args[0], [(b, rng, [])])
         if fname in ("operator.neg", "neg") and len(node.args) == 1:
             return ast.copy_location(ast.UnaryOp(op=ast.USub(), operand=node.args[0]), node)
         if fname == "vars" and len(node.args) == 1:
@@ -1400,6 +1496,7 @@ def normalise_function(fn: ast.FunctionDef, prog: Optional[Program] = None, modu
         if dead:
             fn.body = prune(fn.body) or fn.body
     fn.body = _hoist_walrus(fn.body)
+    fn.body = _for_else_any(fn.body)
     fn.body = _ifexp_statements(fn.body)
     _zip_elements(fn)
     fn.body = _takewhile_loops(fn.body, fn)
@@ -1534,7 +1631,7 @@ def flat(stmts: List[ast.stmt]) -> List[ast.stmt]:
 
 
 def canon(prog: Program, cls: Optional[ClassInfo], fn: ast.FunctionDef, exclude: Iterable[str] = (), helpers: bool = True,
-          locals_: bool = True, public: bool = False) -> ast.FunctionDef:
+          locals_: bool = True, public: bool = False, module_functions: bool = False) -> ast.FunctionDef:
     if prog is None and cls is not None:
         prog = getattr(cls, "prog", None)
     # the canonical form depends on the class only through the helpers its self-calls resolve to: key by that resolution, so
@@ -1556,7 +1653,7 @@ def canon(prog: Program, cls: Optional[ClassInfo], fn: ast.FunctionDef, exclude:
                     seen.add(nm)
                     todo.append(methods[nm][1])
         sig = tuple(sorted((nm, methods[nm][0].qual) for nm in seen))
-    key = (sig if helpers and cls is not None else None, tuple(sorted(exclude)), helpers and cls is not None, locals_, public)
+    key = (sig if helpers and cls is not None else None, tuple(sorted(exclude)), helpers and cls is not None, locals_, public, module_functions)
     cache = fn.__dict__.setdefault("_jfsa_canon", {})
     if key in cache:
         return cache[key]
@@ -1567,7 +1664,7 @@ def canon(prog: Program, cls: Optional[ClassInfo], fn: ast.FunctionDef, exclude:
     finally:
         fn.__dict__["_jfsa_canon"] = saved
     if helpers and cls is not None:
-        _inline_helpers(prog, cls, f, set(exclude), 0, public)
+        _inline_helpers(prog, cls, f, set(exclude), 0, public, module_functions)
     if locals_:
         normalise_function(f, prog)
     else:
